@@ -220,18 +220,15 @@ func c08VarargElems(s *ssa.Slice) ([]ssa.Value, bool) {
 
 func c08RuleC(c *core.Ctx, r *c08roles, prov *c08Prov) {
 	// (i) every node created by a reader method is attached under the cursor
-	env := c04NewEnv(c, "R08c")
-	if env == nil {
-		return
-	}
 	for _, tn := range []*types.TypeName{r.xmlReader, r.jsonReader} {
-		cur, amb := env.cursorOf(tn)
+		meths := c08ReaderMethods(r, tn)
+		cur, amb := c08CursorOf(r, meths)
 		if cur == nil || amb {
 			c.Unresolved("R08c", "cursor of "+c04TypeKey(tn), "the *Node field that is AddChild's parent and is re-assigned by the reader's methods could not be determined")
 			continue
 		}
 		n := 0
-		for _, f := range r.methods[tn] {
+		for _, f := range meths {
 			for _, ci := range core.Calls(f) {
 				call, ok := ci.(*ssa.Call)
 				if !ok {
@@ -799,4 +796,84 @@ func c08RuleE(c *core.Ctx, r *c08roles, prov *c08Prov) {
 	if n == 0 {
 		c.Unresolved("R08e", "CharData type test", "no method of the XML stream reader tests a token for xml.CharData")
 	}
+}
+
+// c08ReaderMethods: the methods (and their closures) of the reader type and of the struct types of package idr it
+// embeds, directly or transitively (state moved into an embedded struct keeps its role).
+func c08ReaderMethods(r *c08roles, tn *types.TypeName) []*ssa.Function {
+	var out []*ssa.Function
+	seen := map[*types.TypeName]bool{}
+	var add func(t *types.TypeName, depth int)
+	add = func(t *types.TypeName, depth int) {
+		if t == nil || seen[t] || depth > 4 {
+			return
+		}
+		seen[t] = true
+		out = append(out, r.methods[t]...)
+		st, ok := t.Type().Underlying().(*types.Struct)
+		if !ok {
+			return
+		}
+		for i := 0; i < st.NumFields(); i++ {
+			f := st.Field(i)
+			if !f.Embedded() {
+				continue
+			}
+			if n := core.NamedOf(f.Type()); n != nil && n.Obj().Pkg() == r.idr {
+				add(n.Obj(), depth+1)
+			}
+		}
+	}
+	add(tn, 0)
+	return out
+}
+
+// c08CursorOf: the *Node field (of the reader or of a struct nested in it: resolved by field identity, whatever the
+// nesting) that the methods use as AddChild's parent and also re-assign: the parse cursor.
+func c08CursorOf(r *c08roles, meths []*ssa.Function) (cur *types.Var, ambiguous bool) {
+	parents := map[*types.Var]bool{}
+	stored := map[*types.Var]bool{}
+	for _, m := range meths {
+		for _, b := range m.Blocks {
+			for _, in := range b.Instrs {
+				switch x := in.(type) {
+				case ssa.CallInstruction:
+					if x.Common().StaticCallee() == r.addChild && len(x.Common().Args) == 2 {
+						if f, _ := c04FieldLoad(x.Common().Args[0]); f != nil && c08IsPtrToNode(f.Type(), r.node) {
+							parents[f] = true
+						}
+					}
+				case *ssa.Store:
+					if fa, ok := x.Addr.(*ssa.FieldAddr); ok {
+						if f := core.FieldOfAddr(fa); f != nil && c08IsPtrToNode(f.Type(), r.node) {
+							stored[f] = true
+						}
+					}
+				}
+			}
+		}
+	}
+	var cands []*types.Var
+	for f := range parents {
+		// link fields of Node itself (n.Parent = …) are not reader state
+		if stored[f] && !c08IsNodeField(r, f) {
+			cands = append(cands, f)
+		}
+	}
+	if len(cands) == 0 {
+		return nil, false
+	}
+	if len(cands) > 1 {
+		return nil, true
+	}
+	return cands[0], false
+}
+
+func c08IsNodeField(r *c08roles, f *types.Var) bool {
+	for i := 0; i < r.nodeSt.NumFields(); i++ {
+		if r.nodeSt.Field(i) == f {
+			return true
+		}
+	}
+	return false
 }
